@@ -37,6 +37,69 @@ type Cfg struct {
 	// OmitMPv6: IPv6 is configured on bio-rd's side (V6) but the remote side's OPEN carries no multiprotocol
 	// capability for IPv6 unicast (an IPv4-only speaker): the family is configured and not negotiated
 	OmitMPv6 bool `json:"omit_mp_v6,omitempty"`
+	// APLayout: how the remote side lays out its ADD-PATH capability (RFC 7911 section 4 gives the tuples no order and
+	// RFC 5492 section 4 allows several instances of a capability): "" one capability, IPv4 then IPv6;
+	// "reversed"; "foreign-first" / "foreign-last" / "foreign-between": tuples naming families the session does not
+	// carry (see ForeignAddPath) in front of / behind / between the real ones; "split": one capability instance per
+	// tuple; "split-foreign-first": the same with the foreign tuples' instances first.
+	APLayout string `json:"ap_layout,omitempty"`
+	// APFirst: the ADD-PATH capability precedes the multiprotocol capabilities in the OPEN
+	APFirst bool `json:"ap_first,omitempty"`
+}
+
+// ForeignAddPath lists ADD-PATH tuples for address families the session of c does not carry: the unicast family that is
+// not configured (IPv6 on an IPv4-only session and vice versa), IPv4 multicast and L2VPN (AFI 25) unicast-SAFI.
+func (c Cfg) ForeignAddPath() []wire.AddPathTuple {
+	var ts []wire.AddPathTuple
+	if !c.V6 {
+		ts = append(ts, wire.AddPathTuple{Family: wire.IPv6Unicast, Mode: 3})
+	}
+	if !c.V4 {
+		ts = append(ts, wire.AddPathTuple{Family: wire.IPv4Unicast, Mode: 3})
+	}
+	return append(ts, wire.AddPathTuple{Family: wire.Family{AFI: wire.AFIIPv4, SAFI: 2}, Mode: 3},
+		wire.AddPathTuple{Family: wire.Family{AFI: 25, SAFI: 1}, Mode: 2})
+}
+
+// addPathCaps lays the real tuples out as c.APLayout says.
+func (c Cfg) addPathCaps(real []wire.AddPathTuple) []wire.Capability {
+	if c.APLayout == "" {
+		if len(real) == 0 {
+			return nil
+		}
+		return []wire.Capability{wire.CapAddPath(real...)}
+	}
+	foreign := c.ForeignAddPath()
+	var ts []wire.AddPathTuple
+	switch c.APLayout {
+	case "reversed":
+		for i := len(real) - 1; i >= 0; i-- {
+			ts = append(ts, real[i])
+		}
+	case "foreign-first", "split-foreign-first":
+		ts = append(append(ts, foreign...), real...)
+	case "foreign-between":
+		ts = append(ts, foreign[0])
+		for i, t := range real {
+			ts = append(ts, t)
+			if i+1 < len(foreign) {
+				ts = append(ts, foreign[i+1])
+			}
+		}
+	default: // foreign-last, split
+		ts = append(append(ts, real...), foreign...)
+	}
+	if len(ts) == 0 {
+		return nil
+	}
+	if strings.HasPrefix(c.APLayout, "split") {
+		var out []wire.Capability
+		for _, t := range ts {
+			out = append(out, wire.CapAddPath(t))
+		}
+		return out
+	}
+	return []wire.Capability{wire.CapAddPath(ts...)}
 }
 
 // PeerAS is the remote AS of the session.
@@ -89,12 +152,6 @@ func (c Cfg) Open() *wire.Open {
 	if c.PeerAS4 || c.BigPeer {
 		o.Caps = append(o.Caps, wire.CapAS4(c.PeerAS()))
 	}
-	if c.V4MP {
-		o.Caps = append(o.Caps, wire.CapMP(wire.IPv4Unicast))
-	}
-	if c.V6 && !c.OmitMPv6 {
-		o.Caps = append(o.Caps, wire.CapMP(wire.IPv6Unicast))
-	}
 	var ts []wire.AddPathTuple
 	if c.OfferV4 {
 		ts = append(ts, wire.AddPathTuple{Family: wire.IPv4Unicast, Mode: 2})
@@ -102,8 +159,18 @@ func (c Cfg) Open() *wire.Open {
 	if c.OfferV6 {
 		ts = append(ts, wire.AddPathTuple{Family: wire.IPv6Unicast, Mode: 3})
 	}
-	if len(ts) > 0 {
-		o.Caps = append(o.Caps, wire.CapAddPath(ts...))
+	ap := c.addPathCaps(ts)
+	if c.APFirst {
+		o.Caps = append(o.Caps, ap...)
+	}
+	if c.V4MP {
+		o.Caps = append(o.Caps, wire.CapMP(wire.IPv4Unicast))
+	}
+	if c.V6 && !c.OmitMPv6 {
+		o.Caps = append(o.Caps, wire.CapMP(wire.IPv6Unicast))
+	}
+	if !c.APFirst {
+		o.Caps = append(o.Caps, ap...)
 	}
 	return o
 }
